@@ -126,8 +126,22 @@ impl Prop for C05 {
         let root = rng.pick(&["r", "root", "a", "Foo"]).to_string();
         let mut budget = *rng.pick(&[3usize, 6, 12]);
         let sk = gen_skel(&mut rng, &cfg, &root, 0, &mut budget);
-        let k = rng.range(1, 4);
-        let docs: Vec<_> = (0..k).map(|_| gen_doc(&mut rng, &cfg, &sk)).collect();
+        let deep = rng.pct(3);
+        let k = if deep { 1 } else { rng.range(1, 4) };
+        let docs: Vec<_> = if deep {
+            // one deep chain (depth 120..=200) with a leaf: anything that depends on nesting depth shows here
+            let depth = rng.range(120, 200);
+            let mut cur = crate::dom::Elem::new("leaf");
+            cur.kids.push(crate::dom::Node::Text("x".into()));
+            for i in (0..depth - 1).rev() {
+                let mut e = crate::dom::Elem::new(&format!("n{}", i % 7));
+                e.kids.push(crate::dom::Node::Elem(cur));
+                cur = e;
+            }
+            vec![crate::dom::Doc::plain(cur)]
+        } else {
+            (0..k).map(|_| gen_doc(&mut rng, &cfg, &sk)).collect()
+        };
         let plan_of = |rng: &mut Rng, bytes: &[u8]| if rng.pct(80) { Plan::slice() } else { Plan::draw_transparent(rng, bytes) };
         let steps: Vec<Step> = (0..k)
             .map(|i| {
@@ -136,10 +150,27 @@ impl Prop for C05 {
             })
             .collect();
         let twins = rng.range(2, 4);
-        let replicas = (0..twins)
-            .map(|t| Replica { role: format!("entropy-twin-{t}"), entropy: rng.u128(), steps: steps.clone() })
+        let mut replicas: Vec<Replica> = (0..twins)
+            .map(|t| Replica { role: format!("entropy-twin-{t}"), entropy: rng.u128(), steps: steps.clone(), warmup: vec![] })
             .collect();
-        let derive = rng.pick(&["Serialize, Deserialize", "", "Debug"]).to_string();
+        if rng.pct(35) {
+            // veteran twin: its thread has already parsed other inputs (valid, hostile, failing mid-stream) before
+            // the history starts; thread-local or process-wide state left behind by them must not show
+            let n = rng.range(1, 4);
+            let mut warm = Vec::new();
+            for _ in 0..n {
+                let (bytes, _, _) = if deep { crate::mutate::deep_hostile(&mut rng) } else { crate::mutate::hostile(&mut rng) };
+                let mut plan = if rng.pct(50) { Plan::slice() } else { Plan::draw_transparent(&mut rng, &bytes) };
+                if !plan.slice && rng.pct(50) {
+                    plan.fault = Plan::draw_fault(&mut rng, &bytes);
+                }
+                warm.push(Step { input: Input::Raw(bytes), plan, cfg: 0 });
+            }
+            let last = replicas.len() - 1;
+            replicas[last].role = "veteran-twin".into();
+            replicas[last].warmup = warm;
+        }
+        let derive = rng.pick(&["Serialize, Deserialize", "", "Debug", "Debug, Clone, Debug", "Serialize, Deserialize, Debug, Serialize", "B, A, C, A, B"]).to_string();
         Scenario::Session(Session { alts: vec![None; docs.len()], docs, replicas, opts: all_opts(&derive) })
     }
     fn exec(&self, sc: &Scenario, ctr: &mut Ctr) -> Result<Exec, String> {
@@ -147,6 +178,18 @@ impl Prop for C05 {
             return exec_process_twin(c, ctr);
         }
         let Scenario::Session(s) = sc else { return Ok(super::skip("not_a_session")) };
+        for r in &s.replicas {
+            for st in r.steps.iter().chain(r.warmup.iter()) {
+                if let Input::Raw(b) = &st.input {
+                    if crate::mutate::rough_depth(b) > 200 {
+                        return Ok(super::skip("depth_over_200"));
+                    }
+                }
+            }
+        }
+        if s.replicas.iter().any(|r| r.warmup.iter().any(|w| !matches!(w.input, Input::Raw(_)))) {
+            return Ok(super::skip("warmup_must_be_raw"));
+        }
         if s.replicas.iter().any(|r| r.steps != s.replicas[0].steps) {
             // entropy twins must receive identical deliveries; anything else is not a C05 scenario
             return Ok(Exec { violation: None, trace: 0, fingerprint: 0, nontrivial: false, sim_steps: 0, discarded: Some("twins_differ".into()), shape: 0, env_sig: 0 });
@@ -198,6 +241,12 @@ impl Prop for C05 {
             }
         }
         bump(ctr, "fault.entropy_twin_sessions");
+        if s.replicas.iter().any(|r| !r.warmup.is_empty()) {
+            bump(ctr, "fault.veteran_thread_twin");
+        }
+        if s.docs.iter().any(|d| d.root.depth() >= 120) {
+            bump(ctr, "reach.deep_chain_history");
+        }
         add(ctr, "entropy_twins", s.replicas.len() as u64);
         if order_changed {
             bump(ctr, "reach.entropy_changed_child_order");
